@@ -12,7 +12,7 @@ DRIVER = "drv_C01"
 REQUIRED_THEOREMS = [
     "Acn.C01.prec_order", "Acn.C01.keyLt_strictWeakOrder", "Acn.C01.cfg0_valid", "Acn.C01.init_Inv",
     "Acn.C01.body_preserves_Inv", "Acn.C01.processed_in_own_period", "Acn.C01.horizon_spec",
-    "Acn.C01.run_terminates", "Acn.C01.inv_at_period", "Acn.C01.plugged_once", "Acn.C01.unplugged_once",
+    "Acn.C01.run_terminates", "Acn.C01.run_terminates_driver_fuel", "Acn.C01.inv_at_period", "Acn.C01.plugged_once", "Acn.C01.unplugged_once",
     "Acn.C01.history_sorted", "Acn.C01.history_complete", "Acn.C01.ev_history_keys", "Acn.C01.all_vacant_at_end",
     "Acn.C01.connected_iff", "Acn.C01.sim_body_core", "Acn.C01.sim_run_C01",
 ]
